@@ -213,7 +213,7 @@ func c04Run(in *bufio.Scanner, w *bufio.Writer) {
 					continue
 				}
 			}
-			rep, ok := proc.ask(f[1], 20*time.Second)
+			rep, ok := proc.ask(f[1], HxScale(20*time.Second))
 			if !ok {
 				proc.kill()
 				proc = nil
